@@ -283,6 +283,212 @@ def gen_schema_lean(em, dfl, rows):
     return "\n".join(out) + "\n"
 
 
+# ------------------------------------------------------------------------------------------------ translator, non-element sections
+
+
+def _cs(n):
+    return n.value if isinstance(n, ast.Constant) and isinstance(n.value, str) else None
+
+
+def _dkeys(expr, var="d"):
+    return [_cs(n.slice) for n in ast.walk(expr)
+            if isinstance(n, ast.Subscript) and isinstance(n.value, ast.Name) and n.value.id == var and _cs(n.slice)]
+
+
+OPTION_GROUP_CLASS = {"time": "TimeOptions", "hydraulic": "HydraulicOptions", "report": "ReportOptions", "quality": "QualityOptions",
+                      "reaction": "ReactionOptions", "energy": "EnergyOptions", "graphics": "GraphicsOptions", "user": "UserOptions"}
+
+
+def read_option_tables(wntr):
+    """per option group: fields emitted by Options.to_dict (reflection: the instance __dict__) and, by ast of
+    wntr/network/options.py, whether each is a parameter of the group's __init__ that is stored under its own name;
+    for Options itself: each group is a parameter passed to <Group>.factory and stored"""
+    src = open(os.path.join(vlib.REPO, "wntr", "network", "options.py")).read()
+    classes = {n.name: n for n in ast.parse(src).body if isinstance(n, ast.ClassDef)}
+
+    def init_rows(cname, keys, group_level):
+        if cname not in classes:
+            raise BrokenTie("wntr/network/options.py has no class %s" % cname)
+        init = [f for f in classes[cname].body if isinstance(f, ast.FunctionDef) and f.name == "__init__"]
+        if not init:
+            raise BrokenTie("%s has no __init__" % cname)
+        f = init[0]
+        params = [a.arg for a in f.args.args[1:]] + [a.arg for a in f.args.kwonlyargs]
+        stored = {}
+        for st in ast.walk(f):
+            if (isinstance(st, ast.Assign) and len(st.targets) == 1 and isinstance(st.targets[0], ast.Attribute)
+                    and isinstance(st.targets[0].value, ast.Name) and st.targets[0].value.id == "self"):
+                stored[st.targets[0].attr] = st.value
+        rows = []
+        for k in keys:
+            if k not in params:
+                if f.args.kwarg is not None:
+                    rows.append((k, "ctor", k, ""))  # **kwargs stored as they come (UserOptions)
+                continue
+            v = stored.get(k)
+            if v is None:
+                rows.append((k, "ctor", k, "parameter-not-stored"))
+                continue
+            plain = isinstance(v, ast.Name) and v.id == k
+            # `p if p is not None else <default>`: a given value is stored as it is
+            ordefault = (isinstance(v, ast.IfExp) and isinstance(v.body, ast.Name) and v.body.id == k
+                         and ast.unparse(v.test) == "%s is not None" % k)
+            factory = (group_level and isinstance(v, ast.Call) and isinstance(v.func, ast.Attribute) and v.func.attr == "factory"
+                       and isinstance(v.func.value, ast.Name) and v.func.value.id == OPTION_GROUP_CLASS.get(k)
+                       and len(v.args) == 1 and isinstance(v.args[0], ast.Name) and v.args[0].id == k)
+            rows.append((k, "ctor", k, "" if (plain or ordefault or factory) else ast.unparse(v)[:60]))
+        return rows
+
+    o = wntr.network.options.Options()
+    o.user = {"note": 1}
+    d = o.to_dict()
+    tables = [("Options", list(d.keys()), init_rows("Options", list(d.keys()), True))]
+    for g, fields in d.items():
+        if g not in OPTION_GROUP_CLASS:
+            raise BrokenTie("Options.to_dict emits an unknown group %r" % g)
+        tables.append(("options." + g, list(fields.keys()), init_rows(OPTION_GROUP_CLASS[g], list(fields.keys()), False)))
+    return tables
+
+
+class _SectionReader:
+    """ast of from_dict: what is done with each top-level key, which keys of a control entry each branch reads, and
+    how the simple-control branch reads its two texts"""
+
+    def __init__(self, src):
+        fn = [n for n in ast.parse(src).body if isinstance(n, ast.FunctionDef) and n.name == "from_dict"]
+        if not fn:
+            raise BrokenTie("wntr/network/io.py has no function from_dict")
+        self.fn = fn[0]
+
+    def model_rows(self):
+        rows = []
+        for st in self.fn.body:
+            if not (isinstance(st, ast.If) and isinstance(st.test, ast.Compare) and len(st.test.ops) == 1 and isinstance(st.test.ops[0], ast.In)
+                    and _cs(st.test.left) and isinstance(st.test.comparators[0], ast.Name) and st.test.comparators[0].id == "d" and not st.orelse):
+                continue
+            k = _cs(st.test.left)
+            for s in st.body:
+                if (isinstance(s, ast.Assign) and len(s.targets) == 1 and isinstance(s.targets[0], ast.Attribute)
+                        and isinstance(s.targets[0].value, ast.Name) and s.targets[0].value.id == "wn" and _dkeys(s.value) == [k]):
+                    rows.append((k, "assign", s.targets[0].attr, "" if isinstance(s.value, ast.Subscript) else ast.unparse(s.value)[:60]))
+                elif isinstance(s, ast.For) and isinstance(s.iter, ast.Subscript) and _dkeys(s.iter) == [k]:
+                    rows.append((k, "ctor", "loop", ""))
+                elif (isinstance(s, ast.Expr) and isinstance(s.value, ast.Call) and ast.unparse(s.value.func) == "wn.options.__init__"
+                      and not s.value.args and len(s.value.keywords) == 1 and s.value.keywords[0].arg is None
+                      and isinstance(s.value.keywords[0].value, ast.Subscript) and _dkeys(s.value.keywords[0].value) == [k]):
+                    rows.append((k, "ctor", "options.__init__", ""))
+        return rows
+
+    def control_branches(self):
+        loops = [s for s in ast.walk(self.fn) if isinstance(s, ast.For) and isinstance(s.iter, ast.Subscript) and _dkeys(s.iter) == ["controls"]]
+        if len(loops) != 1 or not isinstance(loops[0].target, ast.Name):
+            raise BrokenTie("from_dict: expected one loop over d['controls']")
+        loop = loops[0]
+        elem = loop.target.id
+        env = {s.targets[0].id: _dkeys(s.value, elem) for s in loop.body
+               if isinstance(s, ast.Assign) and len(s.targets) == 1 and isinstance(s.targets[0], ast.Name)}
+        chain = [s for s in loop.body if isinstance(s, ast.If)]
+        if len(chain) != 1:
+            raise BrokenTie("from_dict: expected one if/elif chain over the control type")
+        out = {}
+        node = chain[0]
+        while isinstance(node, ast.If):
+            t = node.test
+            typ = _cs(t.comparators[0]) if isinstance(t, ast.Compare) and len(t.comparators) == 1 else None
+            tk = [k for n in ast.walk(t) if isinstance(n, ast.Name) for k in env.get(n.id, [])] + _dkeys(t, elem)
+            if typ is None or "type" not in tk:
+                raise BrokenTie("from_dict: control branch test is not a comparison of the entry's type: %s" % ast.unparse(t))
+            reads, toks, calls = [], {}, set()
+            for s in node.body:
+                for k in _dkeys(s, elem):
+                    if k not in reads:
+                        reads.append(k)
+                for n in ast.walk(s):
+                    if isinstance(n, ast.Call):
+                        calls.add(ast.unparse(n.func))
+                    if isinstance(n, ast.Subscript) and isinstance(n.value, ast.Name) and n.value.id in ("ta", "cond"):
+                        if isinstance(n.slice, ast.Constant) and isinstance(n.slice.value, int):
+                            toks.setdefault(n.value.id, set()).add(n.slice.value)
+                        elif isinstance(n.slice, ast.Slice) and isinstance(n.slice.lower, ast.Constant) and n.slice.upper is None:
+                            toks.setdefault(n.value.id, set()).update(range(n.slice.lower.value, 5))
+            out[typ] = {"reads": reads, "toks": {k: sorted(v) for k, v in toks.items()}, "calls": sorted(calls)}
+            node = node.orelse[0] if len(node.orelse) == 1 and isinstance(node.orelse[0], ast.If) else None
+        for typ in ("simple", "rule"):
+            if typ not in out:
+                raise BrokenTie("from_dict: no branch re-creates controls of type %r" % typ)
+        return out
+
+
+def reflect_sections(wntr):
+    """emitted keys of the dictionary itself and of a rule / simple control entry; the relation words of Comparison"""
+    C = wntr.network.controls
+    wn = G.realise(wntr, zoo_spec())
+    l = wn.get_link("P1")
+    wn.add_control("r", C.Rule(C.SimTimeCondition(wn, "=", 3600), [C.ControlAction(l, "status", 0)], [C.ControlAction(l, "status", 1)], priority=3, name="r"))
+    wn.add_control("c", C.Control(C.SimTimeCondition(wn, "=", 3600), C.ControlAction(l, "status", 0)))
+    d = wntr.network.to_dict(wn)
+    em = {"Model": list(d.keys())}
+    for c in d["controls"]:
+        em["Control:" + c["type"]] = list(c.keys())
+    rel = []
+    for c in C.Comparison:
+        t = c.text.upper()
+        try:
+            back = C.Comparison.parse(t).name
+        except Exception as e:
+            back = "raises:" + type(e).__name__
+        rel.append((c.name, t, back))
+    order = ["gt", "ge", "lt", "le", "eq", "ne"]
+    rel.sort(key=lambda r: order.index(r[0]) if r[0] in order else 99)
+    return em, rel
+
+
+def gen_sections_lean(opt_tables, em, model_rows, branches, rel):
+    out = ["-- GENERATED by harness/props/c13.py from wntr/network/io.py:from_dict, options.py (ast) and to_dict (reflection). Do not edit.",
+           "import WntrModel.Model.SchemaSections", "namespace Wntr.Schema.Gen", "open Wntr.Schema", ""]
+
+    def table(nm, cls, emitted, rows):
+        out.append("def %s : ClassTable :=" % nm)
+        out.append("  { cls := %s," % _ls(cls))
+        out.append("    emitted := [%s]," % ", ".join(_ls(k) for k in emitted))
+        rs = []
+        for (k, use, target, xf) in rows:
+            u = ".dispatch" if use == "dispatch" else "(.%s %s)" % (use, _ls(target))
+            rs.append("      { key := %s, use := %s, xform := %s }" % (_ls(k), u, _ls(xf)))
+        out.append("    rows := [\n%s]," % ",\n".join(rs) if rs else "    rows := [],")
+        out.append("    defaults := [] }")
+        out.append("")
+
+    names = []
+    for cls, emitted, rows in opt_tables:
+        nm = "tOpt" + "".join(w.capitalize() for w in re.split(r"[^A-Za-z]+", cls) if w)
+        names.append(nm)
+        table(nm, cls, emitted, rows)
+    out.append("def optionTables : List ClassTable := [%s]" % ", ".join(names))
+    out.append("")
+    table("tModel", "Model", em["Model"], model_rows)
+    rrows = [("type", "dispatch", "", "")] + [(k, "ctor", "rule_text", "") for k in branches["rule"]["reads"]]
+    table("tControlRule", "Control:rule", em["Control:rule"], rrows)
+    srows = [("type", "dispatch", "", "")]
+    if "condition" in branches["simple"]["reads"]:
+        srows.append(("condition", "ctor", "condition", ""))
+    if "then_actions" in branches["simple"]["reads"]:
+        srows.append(("then_actions", "ctor", "action", ""))
+    table("tControlSimple", "Control:simple", em["Control:simple"], srows)
+    out.append("def sectionTables : List ClassTable := [tModel, tControlRule, tControlSimple]")
+    out.append("")
+    sb = branches["simple"]
+    via = any(c.endswith("_read_control_line") for c in sb["calls"])
+    out.append("def simpleReader : Ctl.Reader :=")
+    out.append("  { viaControlLine := %s, actToks := [%s], condToks := [%s] }" % (
+        "true" if via else "false", ", ".join(str(i) for i in sb["toks"].get("ta", [])), ", ".join(str(i) for i in sb["toks"].get("cond", []))))
+    out.append("")
+    out.append("def relRows : List (String × String × String) := [%s]" % ", ".join("(%s, %s, %s)" % (_ls(a), _ls(b), _ls(c)) for a, b, c in rel))
+    out.append("")
+    out.append("end Wntr.Schema.Gen")
+    return "\n".join(out) + "\n"
+
+
 # ------------------------------------------------------------------------------------------------ normalisation (the statement's)
 
 
@@ -364,13 +570,128 @@ def classify(cls, key, old, new, spec_ctrl=None):
     return "from_dict-%s-%s" % (cls, key)
 
 
+# ------------------------------------------------------------------------------------------------ simple controls, append
+
+
+def widen_controls(rng, sp):
+    """simple Controls the API accepts and a [CONTROLS] line cannot say: conditions on links / reservoirs / other node
+    attributes, the relations >= <= = <>, time conditions with a relation, a pump SETTING action (C13 only; the spec
+    format is the shared one)"""
+    links = [(p["name"], "pipe") for p in sp["pipes"]] + [(p["name"], "pump") for p in sp["pumps"]] + [(v["name"], "valve") for v in sp["valves"]]
+    jn = [j["name"] for j in sp["junctions"]]
+    out = []
+    for _ in range(rng.randint(1, 3)):
+        k = rng.choice(["link-flow", "link-status", "res-head", "junc-other", "junc-eq", "tank-rel", "time-rel", "clock-rel", "pump-setting"])
+        act = [rng.choice(links)[0], "status", rng.choice(["OPEN", "CLOSED"])]
+        if k == "link-flow":
+            cond = ["val", "link", rng.choice(links)[0], "flow", rng.choice([">", "<", ">=", "<="]), round(rng.uniform(0.001, 0.05), 4)]
+        elif k == "link-status":
+            cond = ["val", "link", rng.choice(links)[0], "status", rng.choice(["=", "<>"]), rng.choice(["OPEN", "CLOSED"])]
+        elif k == "res-head" and sp["reservoirs"]:
+            cond = ["val", "node", rng.choice(sp["reservoirs"])["name"], "head", rng.choice([">", "<"]), round(rng.uniform(10, 60), 2)]
+        elif k == "junc-other":
+            cond = ["val", "node", rng.choice(jn), rng.choice(["head", "demand"]), rng.choice([">", "<", ">=", "<="]), round(rng.uniform(0.001, 60), 3)]
+        elif k == "junc-eq":
+            cond = ["val", "node", rng.choice(jn), "pressure", rng.choice(["=", "<>"]), round(rng.uniform(5, 60), 2)]
+        elif k == "tank-rel" and sp["tanks"]:
+            t = rng.choice(sp["tanks"])
+            cond = ["val", "node", t["name"], rng.choice(["level", "head", "pressure"]), rng.choice([">=", "<=", ">", "<"]), round(rng.uniform(t["min"], t["max"]), 2)]
+        elif k == "clock-rel":
+            cond = ["clock", rng.choice([">", "<", ">=", "<="]), rng.choice([1800, 6 * 3600, 45000, 86399])]
+        elif k == "pump-setting" and sp["pumps"]:
+            cond = ["time", "=", rng.choice([3600, 5400, 30 * 3600])]
+            act = [rng.choice(sp["pumps"])["name"], "setting", rng.choice([0.5, 0.8, 1.25])]
+        else:
+            cond = ["time", rng.choice([">", "<", ">=", "<="]), rng.choice([3600, 5400, 3661, 30 * 3600])]
+        out.append({"name": "wide %d" % len(out), "kind": "control", "cond": cond, "then": [act], "else": [], "priority": 3})
+    sp["controls"] = sp["controls"] + out
+    return sp
+
+
+KIND_OF = {"Junction": "junction", "Tank": "tank", "Reservoir": "reservoir", "Pipe": "pipe", "Pump": "pump"}
+
+
+def net_line(d):
+    es = []
+    for n in d["nodes"]:
+        es.append("N:%s:%s" % (KIND_OF[n["node_type"]], n["name"]))
+    for l in d["links"]:
+        k = KIND_OF.get(l["link_type"]) or ("gpv" if l.get("valve_type") == "GPV" else "valve")
+        es.append("L:%s:%s" % (k, l["name"]))
+    return SEP.join(es)
+
+
+def text_tokens(text):
+    """position-based tokens of a condition / action text: [TYPE, name, ATTRIBUTE, RELATION|IS, value]; SYSTEM conditions are plain words"""
+    ws = text.split()
+    if ws and ws[0] == "SYSTEM" or len(ws) != 5:
+        return SEP.join("w:" + w for w in ws)
+    out = ["w:" + ws[0], "w:" + ws[1]]
+    out.append("u:" + ws[2].lower() if ws[2] == ws[2].lower().upper() else "w:" + ws[2])
+    out.append("w:" + ws[3])
+    try:
+        float(ws[4])
+        out.append("n:" + ws[4])
+    except ValueError:
+        out.append("w:" + ws[4])
+    return SEP.join(out)
+
+
+SECTIONS = ("curves", "patterns", "nodes", "links", "sources", "controls")
+
+
+def model_names(wn):
+    return {"curves": list(wn.curve_name_list), "patterns": list(wn.pattern_name_list), "nodes": list(wn.node_name_list),
+            "links": list(wn.link_name_list), "sources": list(wn.source_name_list), "controls": list(wn.control_name_list)}
+
+
+def dict_names(d):
+    out = {sec: [e["name"] for e in d.get(sec, [])] for sec in SECTIONS if sec != "controls"}
+    cn, k = [], 0
+    for c in d.get("controls", []):
+        if c["type"].lower() == "simple":
+            k += 1
+            cn.append("control %d" % k)
+        else:
+            cn.append(c["name"])
+    out["controls"] = cn
+    return out
+
+
+def names_line(nm):
+    return SEP2.join(SEP.join(nm[sec]) for sec in SECTIONS)
+
+
+SEP2 = "\x02"
+
+
+def base_model(wntr, rng, d):
+    """a small NON-empty model to append to; with probability 1/2 one of its names is one of the dictionary's"""
+    C = wntr.network.controls
+    nm = dict_names(d)
+    clash = rng.choice(SECTIONS) if rng.random() < 0.5 else None
+
+    def pick(sec, own):
+        return rng.choice(nm[sec]) if clash == sec and nm[sec] else own
+
+    wn = wntr.network.WaterNetworkModel()
+    wn.add_pattern(pick("patterns", "A_pat"), [1.0, 0.5])
+    wn.add_curve(pick("curves", "A_curve"), "HEAD", [(0.0, 20.0), (0.1, 10.0), (0.2, 1.0)])
+    wn.add_junction(pick("nodes", "A_j1"), base_demand=0.001, elevation=1.0)
+    wn.add_reservoir("A_r1", base_head=10.0)
+    wn.add_pipe(pick("links", "A_p1"), "A_r1", wn.junction_name_list[0])
+    wn.add_source(pick("sources", "A_src"), "A_r1", "CONCEN", 1.0, None)
+    wn.add_control(pick("controls", "A_ctl"), C.Control(C.SimTimeCondition(wn, "=", 7200), C.ControlAction(wn.get_link(wn.link_name_list[0]), "status", 0)))
+    return wn, clash
+
+
 # ------------------------------------------------------------------------------------------------ the check
 
 
 class C13(Check):
     pid = "C13"
     level = "proof"
-    prop_modules = ["WntrModel.Props.C13"]
+    prop_modules = ["WntrModel.Props.C13", "WntrModel.Props.C13Sections"]
     manifest = dict(
         category="proof",
         text="Lean theorems: for ANY list of elements, to_dict(from_dict(to_dict m)) = norm(to_dict m) provided every emitted key is "
@@ -401,6 +722,16 @@ class C13(Check):
         ctx.cov["schema_classes"] = len(em)
         ctx.cov["schema_rows"] = sum(len(v) for v in rows.values())
         vlib.write_if_changed(os.path.join(vlib.GEN, "SchemaDict.lean"), gen_schema_lean(em, dfl, rows))
+        # the non-element sections: option groups, the dictionary's own keys, control entries, the simple-control reader
+        sr = _SectionReader(open(os.path.join(vlib.REPO, "wntr", "network", "io.py")).read())
+        opt_tables = read_option_tables(wntr)
+        sem, rel = reflect_sections(wntr)
+        self.branches = sr.control_branches()
+        self.simple_via_control_line = any(c.endswith("_read_control_line") for c in self.branches["simple"]["calls"])
+        ctx.cov["option_groups"] = len(opt_tables) - 1
+        ctx.cov["option_fields"] = sum(len(t[1]) for t in opt_tables[1:])
+        ctx.cov["simple_reader"] = "coded(_read_control_line)" if self.simple_via_control_line else "repaired(text as written)"
+        vlib.write_if_changed(os.path.join(vlib.GEN, "SchemaSections.lean"), gen_sections_lean(opt_tables, sem, sr.model_rows(), self.branches, rel))
 
     # ---------------------------------------------------------------- cases
     def _cases(self, ctx, wntr):
@@ -410,6 +741,10 @@ class C13(Check):
         n = 25 if ctx.quick else 150
         for i in range(n):
             sp = G.gen_spec(ctx.rng, size=1 if i % 3 else 2, inp_only=False, exotic=0.5 if i % 5 == 0 else 0.0)
+            if i % 4 == 1 and not getattr(self, "simple_via_control_line", True):
+                # the repaired from_dict re-reads the texts as written: the whole API range of simple controls is generated
+                # (through _read_control_line they are the two known findings; the wide classes are not generated then)
+                sp = widen_controls(ctx.rng, sp)
             yield ("gen%d" % i, sp, None)
         nets = ["Net1.inp", "Net2.inp", "Net3.inp"] + ([] if ctx.quick else ["Net6.inp", "ky10.inp"])
         for nm in nets:
@@ -471,6 +806,21 @@ class C13(Check):
                             jn.add_leak(wn, 0.0125, 0.6, 3600, 7200)
                             jn.remove_leak(wn)
                             ctx.count("case:leak-added-and-removed")
+                    if sp is not None and ctx.rng.random() < 0.3:
+                        # option groups the generator leaves alone: report, graphics, user
+                        o = wn.options
+                        o.report.status, o.report.summary, o.report.energy = ctx.rng.choice(["FULL", "YES", "NO"]), "NO", "YES"
+                        o.report.nodes = [wn.node_name_list[0]] if ctx.rng.random() < 0.5 else True
+                        o.report.pagesize = [0, 20]
+                        o.report.report_filename = "x.rpt"
+                        o.report.report_params["elevation"] = True
+                        o.report.param_opts["pressure"]["below"] = 3.0
+                        o.graphics.dimensions, o.graphics.units, o.graphics.offset = [0.0, 0.0, 10.0, 10.0], "METERS", [1.0, 2.0]
+                        o.graphics.image_filename, o.graphics.map_filename = "a.png", "m.map"
+                        o.user.note = "kept"
+                        o.user.table = {"a": [1, 2.5, None]}
+                        o.hydraulic.inpfile_units = ctx.rng.choice(["GPM", "LPS", "CMH"])
+                        ctx.count("case:options-report-graphics-user")
                     if label.startswith("inp+sim:"):
                         wn.options.time.duration = 2 * wn.options.time.hydraulic_timestep
                         node0 = wn.junction_name_list[0]
@@ -523,7 +873,10 @@ class C13(Check):
                                 cls = class_of_element(ea) if sec in ("nodes", "links") else sec[:-1].capitalize()
                                 ea = {k: v for k, v in ea.items() if k != "_no_demands"}
                                 lines.append(cls + "\t" + "\t".join(k + SEP + json.dumps(v, sort_keys=True) for k, v in ea.items()))
-                                expect.append((label, cls, ea, eb))
+                                expect.append(("elem", label, cls, ea, eb))
+                self._simple_controls(ctx, wntr, label, d0, lines, expect)
+                if sp is not None and ctx.rng.random() < 0.4:
+                    self._append_case(ctx, wntr, label, d0, lines, expect, broken)
                 if len(ctx.samples) < 4 and sp is not None:
                     ctx.sample({"case": label, "features": sorted(G.features(sp))[:25], "elements": len(d0["nodes"]) + len(d0["links"]), "controls": len(d0["controls"])})
         finally:
@@ -539,7 +892,27 @@ class C13(Check):
             if len(out) != len(lines):
                 raise vlib.Infra("SchemaDriver returned %d lines for %d requests" % (len(out), len(lines)))
             nmis = 0
-            for (label, cls, ea, eb), line in zip(expect, out):
+            for ex, line in zip(expect, out):
+                if ex[0] == "ctl":
+                    _, label, entry, impl = ex
+                    ctx.count("simple-control model-vs-impl:" + ("agree" if line == impl else "disagree"))
+                    ctx.count("simple-control outcome:" + line.split("\t")[0].split(" ")[0])
+                    if line != impl and nmis < 5:
+                        nmis += 1
+                        broken.append(Broken("correspondence", "SchemaDriver simple control",
+                                             "model (%s reader) predicts %r for %r, implementation gives %r (case %s)" % (
+                                                 "coded" if self.simple_via_control_line else "repaired", line, entry, impl, label)))
+                    continue
+                if ex[0] == "app":
+                    _, label, impl, clash = ex
+                    ctx.count("append model-vs-impl:" + ("agree" if line == impl else "disagree"))
+                    ctx.count("append outcome:" + line.split("\t")[0] + (" (clash in %s)" % clash if clash else ""))
+                    if line != impl and nmis < 5:
+                        nmis += 1
+                        broken.append(Broken("correspondence", "SchemaDriver append",
+                                             "model predicts %r, implementation gives %r (case %s, clash %s)" % (line, impl, label, clash)))
+                    continue
+                _, label, cls, ea, eb = ex
                 if line.startswith("bad"):
                     broken.append(Broken("correspondence", "SchemaDriver", "driver rejected class %s: %s" % (cls, line)))
                     break
@@ -555,6 +928,76 @@ class C13(Check):
                                              "model predicts %s after the round trip, implementation gives %s (case %s, element %s)" % (mv, iv, label, ea.get("name"))))
         # de-duplicate failures per key keeping the first (smallest) one
         return failures, broken
+
+    def _simple_controls(self, ctx, wntr, label, d0, lines, expect):
+        """each simple control of the model alone: what from_dict makes of its two texts vs the Lean reader"""
+        simple = [c for c in d0["controls"] if c["type"] == "simple"]
+        for c in simple[:4]:
+            dd = {k: copy.deepcopy(v) for k, v in d0.items() if k != "controls"}
+            dd["controls"] = [copy.deepcopy(c)]
+            try:
+                back = wntr.network.to_dict(wntr.network.from_dict(dd))["controls"]
+                impl = "ok\t%s\t%s" % (back[0]["condition"], back[0]["then_actions"][0]) if len(back) == 1 else "ok #controls=%d" % len(back)
+            except Exception as e:
+                impl = "raises " + type(e).__name__
+            lines.append("@ctl\t%s\t%s\t%s" % (net_line(d0), text_tokens(c["condition"]), text_tokens(c["then_actions"][0])))
+            expect.append(("ctl", label, c, impl))
+
+    def _append_case(self, ctx, wntr, label, d0, lines, expect, broken):
+        """from_dict(d, append=m0) on a NON-empty model: accepted / refused and the names per name space (Lean `App.append`);
+        when accepted, every section of the result is the model's entries followed by the re-created ones"""
+        try:
+            plain = G.jsonify(wntr.network.to_dict(wntr.network.from_dict(copy.deepcopy(d0))))
+        except Exception:
+            ctx.count("append: skipped (the dictionary is not re-created at all)")
+            return
+        m0, clash = base_model(wntr, ctx.rng, d0)
+        # the call REPLACES name / references / options (Lean: `top := d.top`); what the existing elements show of the options
+        # (the default demand pattern) follows: the expectation is the old model under the dictionary's options
+        m0b = copy.deepcopy(m0)
+        m0b.options.__init__(**copy.deepcopy(d0["options"]))
+        before = wntr.network.to_dict(m0b)
+        nb = model_names(m0)
+        try:
+            wntr.network.from_dict(copy.deepcopy(d0), append=m0)
+            ok = True
+        except ValueError:
+            ok = False
+        except Exception as e:
+            broken.append(Broken("correspondence", "append", "from_dict(d, append=non-empty model) raises %s: %s (case %s)" % (type(e).__name__, e, label)))
+            return
+        na = model_names(m0)
+        lines.append("@app\t%s\t%s" % (names_line(nb), names_line(dict_names(d0))))
+        expect.append(("app", label, ("ok" if ok else "refused") + "\t" + names_line(na), clash))
+        ctx.case(("append-nonempty", clash, ok), True)
+        if ok:
+            after = G.jsonify(wntr.network.to_dict(m0))
+            bj = G.jsonify(before)
+            bad = []
+            for sec in SECTIONS:
+                want = bj[sec] + plain[sec] if sec != "controls" else None
+                if sec == "controls":
+                    if after[sec][:len(bj[sec])] != bj[sec] or after[sec][len(bj[sec]):] != plain[sec]:
+                        bad.append(sec)
+                elif sec == "curves":
+                    # CurveRegistry.add_curve is `self[name] = curve`: a name that exists keeps its place and gets the new curve
+                    want = [dict(e) for e in bj[sec]]
+                    for e in plain[sec]:
+                        hit = [i for i, x in enumerate(want) if x["name"] == e["name"]]
+                        if hit:
+                            want[hit[0]] = e
+                        else:
+                            want.append(e)
+                    if after[sec] != want:
+                        bad.append(sec)
+                elif after[sec] != want:
+                    bad.append(sec)
+            if after["options"] != plain["options"] or after["name"] != plain["name"]:
+                bad.append("options/name")
+            ctx.count("append union:" + ("holds" if not bad else "differs"))
+            if bad:
+                broken.append(Broken("correspondence", "append union", "appending a dictionary with new names: sections %s of the result are not "
+                                     "the model's entries followed by the re-created ones (case %s)" % (bad, label)))
 
     def search(self, ctx, broken):
         # a broken table proof names the pairs: turn them into a concrete model through the zoo
